@@ -97,13 +97,16 @@ impl GenCfg {
 
 const ALPH: &[&str] = &[
   "a", "b", "c", " ", ";", "{", "}", "\n", "\n", "xy", "\t", "fn", "\r", "a", "\n",
+  // bytes one bit away from a delimiter ('\n' ^ 1 = VT, '\n' ^ 6 = FF, '\n' | 0x20 = '*', '\n' | 0x40 = 'J', ';' ^ 1 = ':'),
+  // also right behind it
+  "\n\x0b", "\x0b", "\x0c", "*", "J", ":", "\n",
 ];
 // besides 1-4 byte characters: characters whose continuation bytes are a delimiter's byte with the top
 // bit set (U+FEFF = EF BB BF, » = C2 BB, 们 = E4 BB AC: ';' | 0x80;  U+008A = C2 8A, ⊻ = E2 8A BB:
 // '\n' | 0x80;  U+00A0 = C2 A0: ' ' | 0x80;  ý = C3 BD: '}' | 0x80; û = C3 BB)
 const ALPH_MB: &[&str] = &[
   "a", "é", "日", "😀", ";", "\n", "{", " ", "b", "\n", "}", "ß", "\u{2028}", "x\r", "\u{feff}", "»", "们", "\n",
-  "\u{8a}", "⊻", "\u{a0}", "ý", "û",
+  "\u{8a}", "⊻", "\u{a0}", "ý", "û", "\n\x0b", "\x0c", ":",
 ];
 
 pub fn idx(sel: u16, n: usize) -> usize {
@@ -393,8 +396,9 @@ pub fn concretize_map(t: &str, am: &AbsMap, ascii: bool) -> MapSpec {
     let k = (am.nnames as usize + nsrc) % odd.len();
     sources[0] = odd[k].to_string();
   }
-  // wild maps: now and then the same file is listed twice
-  if am.wild && am.dup_names && nsrc >= 2 {
+  // now and then the same file is listed twice (consistent maps: only where both entries then carry the same
+  // content; `normalize` renames one of them otherwise)
+  if am.dup_names && nsrc >= 2 && (am.wild || am.content_mode <= 1) {
     let first = sources[0].clone();
     *sources.last_mut().unwrap() = first;
   }
@@ -446,7 +450,8 @@ pub fn concretize_map(t: &str, am: &AbsMap, ascii: bool) -> MapSpec {
   };
   // now and then sourcesContent is shorter than sources (only the first files carry their text)
   let mut contents = contents;
-  if am.nnames == 1 && am.src_base >= 2 && contents.len() >= 2 {
+  let listed_twice = nsrc >= 2 && sources[0] == sources[nsrc - 1];
+  if am.nnames == 1 && am.src_base >= 2 && contents.len() >= 2 && (am.wild || !listed_twice) {
     contents.truncate(contents.len() - 1);
   }
   let root = match am.root {
@@ -709,6 +714,22 @@ pub fn sms_inner(cfg: GenCfg) -> BoxedStrategy<Spec> {
       Spec::SmsInner { text, name, map, original, inner, remove }
     })
     .boxed()
+}
+
+/// `sms_inner`, with the outer map written relative to a sourceRoot: the inner source is named by the joined
+/// name ("<root>/<entry>"), which is how the library finds it, and no entry of the outer `sources` equals that
+/// name literally.  Apply after `normalize`.
+pub fn rooted_inner(spec: Spec, style: u8) -> Spec {
+  match spec {
+    Spec::SmsInner { text, name, mut map, original, inner, remove } => {
+      // (roots no other generated name starts with: the joined names cannot collide with a file of the inner map)
+      let root = ["or", "or/", "", "/abs/odir", "webpack://opkg/"][style as usize % 5];
+      map.root = Some(root.to_string());
+      let name = crate::observe::root_join(Some(root), &name);
+      Spec::SmsInner { text, name, map, original, inner, remove }
+    }
+    other => other,
+  }
 }
 
 /// A SourceMapSource whose first line is longer than 64 KiB (30 000 - 70 000 characters of 1-3 bytes), with
